@@ -16,6 +16,7 @@ Alg == <<GoInt("int64", 1), AlgV>>
 Kid(b) == <<GoInt("int64", 4), GoBytes(<<b>>)>>
 BadKid == <<GoInt("int64", 4), GoInt("int64", 7)>>
 Cs == [P |-> <<Alg>>, U |-> <<Kid(55)>>, sig |-> <<204, 221>>]
+Cs2 == [P |-> <<Alg, Kid(56)>>, U |-> <<>>, sig |-> <<1, 2>>]
 SigA == [P |-> <<Alg>>, U |-> <<>>, sig |-> <<170, 187>>]
 SigB == [P |-> <<Alg, Kid(50)>>, U |-> <<<<GoInt("int64", 7), [t |-> "csig", x |-> Cs]>>>>, sig |-> <<1, 2, 3>>]
 SigBad == [P |-> <<Alg>>, U |-> <<BadKid>>, sig |-> <<9>>]
@@ -24,7 +25,7 @@ SigClash == [P |-> <<<<GoInt("int64", 5), GoBytes(<<1>>)>>>>, U |-> <<<<GoInt("i
 Img(kind, x) ==
   CASE kind \in {"sign1", "sign1u"} ->
          (CASE x = "A" -> ImageOf(kind, [P |-> <<Alg>>, U |-> <<Kid(49)>>, payload |-> <<1, 2>>, sig |-> <<170, 187>>])
-            [] x = "B" -> ImageOf(kind, [P |-> <<>>, U |-> <<<<GoInt("int64", 11), [t |-> "csigs", xs |-> <<Cs, Cs>>]>>, <<GoInt("int64", 5), GoBytes(<<7>>)>>>>, payload |-> NilPayload, sig |-> <<1>>])
+            [] x = "B" -> ImageOf(kind, [P |-> <<>>, U |-> <<<<GoInt("int64", 11), [t |-> "csigs", xs |-> <<Cs, Cs2>>]>>, <<GoInt("int64", 5), GoBytes(<<7>>)>>>>, payload |-> NilPayload, sig |-> <<1>>])
             [] x = "E" -> <<0>> \o ImageOf(kind, [P |-> <<Alg>>, U |-> <<>>, payload |-> <<1>>, sig |-> <<1>>])
             [] x = "M" -> ImageOf(kind, [P |-> <<Alg>>, U |-> <<BadKid>>, payload |-> <<3>>, sig |-> <<4>>])
             [] x = "L" -> ImageOf(kind, [P |-> SigClash.P, U |-> SigClash.U, payload |-> <<3>>, sig |-> <<4>>]))
